@@ -313,6 +313,29 @@ def r2_r3_r4(ctx):
                   'set_config_no_verification ignores field(s) %s of SetConfigRequest' % missing)
 
 
+def inputs_survive_upgrades(ctx, rule, roots, who, floor=6):
+    """every state field read in REACH(roots) is carried across an upgrade: serialised, or listed in the
+    derived-field table with re-checked evidence (stable-memory backed / rebuilt / optional with fallback)"""
+    prog = ctx.prog
+    reach = prog.reach(list(roots))
+    cov = coverage(prog)
+    spec = json.load(open(SPEC))['fields'] if os.path.exists(SPEC) else []
+    evid = {(x['adt'], x['field']) for x in spec}
+    n, lost = 0, 0
+    for adt, info in sorted(cov.items()):
+        for f in info['fields']:
+            if not readers(prog, adt, f, list(reach.values())):
+                continue
+            n += 1
+            if f in info['omitted'] and (adt, f) not in evid:
+                lost += 1
+                ctx.bad(rule, 'input-lost-at-upgrade:%s.%s' % (adt.rsplit('::', 1)[-1], f), prog.adts[adt]['file'] + ':%d' % prog.adts[adt]['line'],
+                        'field `%s` of %s is read by %s but is not carried across an upgrade: after post_upgrade they compute on a default value' % (f, adt, who))
+    ctx.floor(rule, 'state fields read by ' + who, n, floor)
+    if not lost:
+        ctx.ok(rule, 'inputs-survive-upgrades', '', 'all %d state fields read by %s are serialised (or backed by stable memory / rebuilt)' % (n, who))
+
+
 def r2_reset_unconditional(ctx):
     """the reset the upgrade hooks rely on clears the fetch mutex and the partial reply on every path —
     a request abandoned by the upgrade is abandoned whatever the configuration says"""
